@@ -114,6 +114,15 @@ CHECKS = {
         design_ref="3 C17",
         technique="symbolic execution by operator overloading of the real functions into z3 terms (QF_BVFP+LIA), SMT query per property; CrossHair for handlers; replay on real pyarrow",
     ),
+    "C12": dict(
+        category="translation_validation",
+        text="Translation validation by SMT: for ~77 MERGE shapes the statements the real pipeline hands to DuckDB are captured at the engine "
+        "boundary and symbolically executed (bounded symbolic SQL evaluator over z3: symbolic row presence, NULL flags and integer cells, "
+        "three-valued logic, FULL OUTER JOIN, UPDATE..FROM, DELETE..USING, COUNT_IF) and compared with a direct encoding of Snowflake's "
+        "MERGE semantics: final target bag, the three counts, source untouched; one query per shape over all contents within the row bounds.",
+        design_ref="3 C12",
+        technique="symbolic evaluation of the emitted SQL vs reference semantics, one z3 query per MERGE shape (cvc5 cross-check in thorough); evaluator validated against real DuckDB each run; replay on the real stack",
+    ),
 }
 
 NOT_YET = "not claimed yet: check not built in this round (see DESIGN.md 7 for the order of work)"
